@@ -5,6 +5,10 @@ HERE = os.path.dirname(os.path.dirname(os.path.abspath(__file__)))
 CHECKS = {
  "C01": ("property-based testing (Hypothesis scenes) vs construction witnesses and a certified reference GJK",
          "generated-input search over all 100 ordered collider pairs and four scene families against an independent oracle; held on everything explored"),
+ "C03": ("property-based testing (Hypothesis): collider specs x direction sequences vs closed-form support values and signed-distance bounds; mesh history vs fresh object",
+         "generated-input search over all collider kinds, poses and special directions against closed-form reference support functions; held on everything explored"),
+ "C04": ("property-based testing (Hypothesis): AABB bounds vs closed-form support values along +-e_i; RigidBody vs world-frame vertex bounds; overlap consequence on constructed overlapping scenes",
+         "generated-input search against a closed-form oracle that decides enclosure and tightness at once; one open known finding (ellipsoid_aabb)"),
  "C05": ("model-based testing: Hypothesis-generated insertion/query histories vs list model with brute-force overlap; jit and boundscheck modes",
          "generated operation sequences against a reference model with structural invariants after every step; held on everything explored"),
 }
